@@ -8,7 +8,7 @@ from ..oracle import se3
 
 PI = math.pi
 TOLS = [1e-2, 1e-4, 1e-6, 1e-8]
-ANG_SLACK = 5e-8       # double precision cannot resolve rotation angles below ~1.5e-8 from a matrix
+ANG_SLACK = 2e-7       # the trace-based angle of a product of ~10 rotation matrices cannot be resolved below ~sqrt(1e-14)
 
 META = {
     "level": "exploration",
@@ -20,7 +20,7 @@ META = {
              "Non-trivial: reachable goal and a start that is not the solution; distinct by (arm, goal, start, "
              "tolerances, path)."),
     "assumptions": ["success is judged with the solver's own documented criterion at its weakest: rotation angle of "
-                    "inv(FK).goal <= rot_tolerance (+5e-8 rad numerical resolution) and the smallest of |v_space|, |v_body|, "
+                    "inv(FK).goal <= rot_tolerance (+2e-7 rad numerical resolution) and the smallest of |v_space|, |v_body|, "
                     "|dp| <= pos_tolerance",
                     "reach bound = |q_0| + sum |q_{i+1}-q_i| + |p_tool-q_last| (valid for revolute chains whose q_i lie on the axes)",
                     "local-convergence clause only for solutions >= 0.15 rad inside the limits with sigma_min(J) >= 0.05, start "
@@ -38,14 +38,33 @@ def plan(tier, seed):
 
 
 def gen_case(rng):
+    """A session: one arm, an optional prefix, then 1..4 solves on the SAME arm object (state carried between solves)."""
+    first = gen_solve_case(rng)
+    model = armlib.ArmModel(first["arm"], first["base"])
+    solves = [{k: first[k] for k in SOLVE_KEYS}]
+    if rng.random() < 0.5:
+        for _ in range(int(rng.integers(1, 4))):
+            nxt = gen_solve_case(rng, first["arm"], first["base"])
+            solves.append({k: nxt[k] for k in SOLVE_KEYS})
+    out = {"arm": first["arm"], "base": first["base"], "prefix": first["prefix"], "solves": solves}
+    return out
+
+
+SOLVE_KEYS = ["pos_tol", "rot_tol", "goal_theta", "goal_kind", "theta0", "start_kind", "path", "check", "inds", "rseed"]
+
+
+def gen_solve_case(rng, desc=None, base=None):
     r = rng.random()
+    if desc is not None:
+        r = 2.0
     if r < 0.3:
         desc = armlib.urdf_desc(gen.pick(rng, armlib.URDFS))
     elif r < 0.45:
         desc = armlib.test6r_desc()
-    else:
+    elif r < 1.5:
         desc = armlib.random_desc(rng)
-    base = armlib.random_base(rng, 0.3)
+    if base is None:
+        base = armlib.random_base(rng, 0.3)
     model = armlib.ArmModel(desc, base)
     n = model.n
     pt = float(gen.pick(rng, TOLS))
@@ -109,24 +128,42 @@ def run_case(case, ctx, bm):
             ee = model.pose()
             model.M = model.M @ se3.taa_to_T(op["rel"])
             arm.setArbitraryHome(tm(ee @ se3.taa_to_T(op["rel"])))
+    reach = model.reach_bound()
+    session = case
+    for si, solve in enumerate(case["solves"]):
+        run_solve(session, solve, si, ctx, bm, arm, model, reach)
+
+
+def run_solve(session, case, si, ctx, bm, arm, model, reach):
+    tm = bm["tm"]
+    full = dict(session)
+    full["failing_solve"] = si
+    _case_for_report = full
     arm.pos_tolerance = case["pos_tol"]
     arm.rot_tolerance = case["rot_tol"]
     pt, rt = case["pos_tol"], case["rot_tol"]
     gth = np.array(case["goal_theta"], dtype=float)
-    reach = model.reach_bound()
     # The claim under test is about the arm's kinematics as it publishes them (getScrewList + home pose); C05/C13 decide
     # whether those are the right ones.  This keeps the oracle exact to 1e-14 also for URDF arms, whose loaded screws
     # differ from the file's semantics by ~4e-9 (below C13's 1e-6, above a 1e-8 IK tolerance).
     Sg = np.asarray(arm.getScrewList(), dtype=float)
-    Mg = arm.FK(np.zeros(model.n)).gTM()
-    if tol.maxabs(se3.poe_space(Mg, Sg, gth) - model.pose(gth)) > 1e-5 * max(1.0, reach):
-        ctx.bump("oracle", "published_kinematics_differ_from_model")      # C05's business; do not judge IK against a wrong model
+    if si == 0:
+        model.Mg0 = arm.FK(np.zeros(model.n)).gTM()          # home pose read once (a later read would disturb the carried state)
+        if tol.maxabs(se3.poe_space(model.Mg0, Sg, gth) - model.pose(gth)) > 1e-5 * max(1.0, reach):
+            ctx.bump("oracle", "published_kinematics_differ_from_model")      # C05's business; do not judge IK against a wrong model
+            model.skip = True
+    if getattr(model, "skip", False):
         return
-    B_real = model.B.copy()
+    Mg = model.Mg0
+    if not hasattr(model, "B_real"):
+        model.B_real = model.B.copy()
+    B_real = model.B_real
     model.B = np.eye(4)
     model.S = Sg
     model.M = Mg
     goal = model.pose(gth)
+    case = dict(case)
+    case["_session"] = {"arm": session["arm"], "base": session["base"], "prefix": session["prefix"], "solves": session["solves"], "failing_solve": si}
     beyond = case["goal_kind"] == "beyond"
     if beyond:
         d = gen.rand_unit(np.random.default_rng(case["rseed"]))
@@ -134,6 +171,8 @@ def run_case(case, ctx, bm):
     t0 = None if case["theta0"] is None else np.array(case["theta0"], dtype=float)
     path = case["path"]
     key_path = path + ("" if t0 is not None else ":current")
+
+    sess = case["_session"]
 
     def solve(start):
         pyrandom.seed(case["rseed"])
@@ -153,7 +192,7 @@ def run_case(case, ctx, bm):
             ctx.bump("ikfree", "raised_" + type(e).__name__)       # not a claim of success or failure; observed only
             return
         ctx.clause("returns")
-        ctx.violation("returns", "raises/%s/%s" % (type(e).__name__, path), {"exc": traceback.format_exc()[-500:]}, case)
+        ctx.violation("returns", "raises/%s/%s" % (type(e).__name__, path), {"exc": traceback.format_exc()[-500:]}, sess)
         return
     th = np.asarray(th, dtype=float).reshape(-1)
     suc = bool(suc)
@@ -167,12 +206,12 @@ def run_case(case, ctx, bm):
             ee = arm.getEEPos().gTM()
             last = arm.getJointTransforms()[-1].gTM()
         except Exception as e:
-            ctx.violation(clause, key + "/raises/" + type(e).__name__, {"exc": repr(e)[:200]}, case)
+            ctx.violation(clause, key + "/raises/" + type(e).__name__, {"exc": repr(e)[:200]}, sess)
             return None
         sc = max(1.0, float(np.linalg.norm(ee[:3, 3])))
         e = tol.maxabs(ee - last)
         if not (e <= (tol.ABS5 if band else 1e-7) * sc):
-            ctx.violation(clause, key, {"err": e, "rot_pos": se3.pose_dist(ee, last)}, case)
+            ctx.violation(clause, key, {"err": e, "rot_pos": se3.pose_dist(ee, last)}, sess)
         return ee
 
     if suc:
@@ -186,26 +225,26 @@ def run_case(case, ctx, bm):
         bslack = 1e-6 * model.n if band else 0.0          # joint values inside the exponential's cut-off band
         if ang > rt * (1 + 1e-6) + ANG_SLACK + bslack:
             ctx.violation("success.orientation", "false_success/orientation/" + key_path,
-                          {"angle_err": ang, "rot_tol": rt, "pos_tol": pt, "pos_err": perr}, case)
+                          {"angle_err": ang, "rot_tol": rt, "pos_tol": pt, "pos_err": perr}, sess)
         ctx.clause("success.position")
         sc = max(1.0, float(np.linalg.norm(goal[:3, 3])))
         if perr > pt * (1 + 1e-6) + 1e-11 * sc + bslack * max(1.0, reach) + ANG_SLACK * max(1.0, reach) * (ang > 0 and ang < 2e-8):
             ctx.violation("success.position", "false_success/position/" + key_path,
-                          {"pos_err": perr, "pos_tol": pt, "rot_tol": rt, "angle_err": ang}, case)
+                          {"pos_err": perr, "pos_tol": pt, "rot_tol": rt, "angle_err": ang}, sess)
         if path in ("IK", "constrainedIK"):
             ctx.clause("success.in_limits")
             if np.any(th < model.lo - 1e-12) or np.any(th > model.hi + 1e-12):
-                ctx.violation("success.in_limits", "outside_limits/" + key_path, {"theta": th, "lo": model.lo, "hi": model.hi}, case)
+                ctx.violation("success.in_limits", "outside_limits/" + key_path, {"theta": th, "lo": model.lo, "hi": model.hi}, sess)
         ee = coherent("success.state", "state_incoherent/success/" + key_path)
         if ee is not None:
             ctx.clause("success.state")
             sc = max(1.0, float(np.linalg.norm(T[:3, 3])))
             if tol.maxabs(ee - T) > (tol.ABS5 if band else 1e-7) * sc:
-                ctx.violation("success.state", "state_not_solution/" + key_path, {"err": tol.maxabs(ee - T)}, case)
+                ctx.violation("success.state", "state_not_solution/" + key_path, {"err": tol.maxabs(ee - T)}, sess)
         if beyond:
             ctx.clause("unreachable")
             ctx.violation("unreachable", "unreachable_reported_reached/" + key_path,
-                          {"goal_dist": float(np.linalg.norm((se3.inv(B_real) @ goal)[:3, 3])), "reach_bound": reach}, case)
+                          {"goal_dist": float(np.linalg.norm((se3.inv(B_real) @ goal)[:3, 3])), "reach_bound": reach}, sess)
     else:
         if beyond:
             ctx.clause("unreachable")
@@ -231,7 +270,7 @@ def run_case(case, ctx, bm):
                     ctx.bump("local_convergence", "ill_conditioned")
                 else:
                     ctx.violation("local_convergence", "no_local_convergence/" + key_path,
-                                  {"sigma_min": float(sv.min()), "start_dist": float(np.max(np.abs(t0 - gth))), "pos_tol": pt, "rot_tol": rt}, case)
+                                  {"sigma_min": float(sv.min()), "start_dist": float(np.max(np.abs(t0 - gth))), "pos_tol": pt, "rot_tol": rt}, sess)
         else:
             ctx.cls("local_convergence_skipped_singular_or_redundant")
 
@@ -240,16 +279,19 @@ def run_shard(spec, ctx):
     bm = armlib.load_bm()
     for _ in range(int(spec["n"])):
         case = gen_case(ctx.rng)
-        nt = case["goal_kind"] != "beyond" and case["start_kind"] != "current"
-        ctx.case({"arm": case["arm"].get("file", case["arm"]["kind"]), "g": gen.quant(case["goal_theta"], 1e-6), "s": case["start_kind"],
-                  "t": [case["pos_tol"], case["rot_tol"]], "p": case["path"], "b": gen.quant(case["base"], 1e-6)}, nt, sample_every=0)
+        s0 = case["solves"][0]
+        nt = any(sv["goal_kind"] != "beyond" and sv["start_kind"] != "current" for sv in case["solves"])
+        ctx.cls("session_len:%d" % len(case["solves"]))
+        ctx.case({"arm": case["arm"].get("file", case["arm"]["kind"]), "b": gen.quant(case["base"], 1e-6),
+                  "solves": [[gen.quant(sv["goal_theta"], 1e-6), sv["start_kind"], sv["pos_tol"], sv["rot_tol"], sv["path"], sv["check"]] for sv in case["solves"]]},
+                 nt, sample_every=0,
+                 sample={"arm": case["arm"].get("file", case["arm"]["kind"]), "base": case["base"], "prefix": case["prefix"],
+                         "solves": [{k: sv[k] for k in ("path", "check", "pos_tol", "rot_tol", "goal_kind", "start_kind")} for sv in case["solves"]]})
+        ctx.evaluations += len(case["solves"]) - 1
         run_case(case, ctx, bm)
-    c = dict(case)
-    c["arm"] = case["arm"].get("file", case["arm"]["kind"])
-    ctx.samples.append(c)
 
 
 def replay(case, ctx):
     bm = armlib.load_bm()
-    ctx.case(case["path"], True)
+    ctx.case("replay", True)
     run_case(case, ctx, bm)
